@@ -28,16 +28,19 @@ type recStore struct {
 	fired   int32
 	trace   []string
 	tracing bool
+	crashAt int64  // call onCrash at this call; -1 = never
+	onCrash func()
 }
 
 func newRecStore(inner store.Store) *recStore {
-	return &recStore{inner: inner, failAt: -1, exitAt: -1}
+	return &recStore{inner: inner, failAt: -1, exitAt: -1, crashAt: -1}
 }
 
 func (s *recStore) reset() {
 	atomic.StoreInt64(&s.calls, 0)
 	s.failAt = -1
 	s.exitAt = -1
+	s.crashAt = -1
 	atomic.StoreInt32(&s.fired, 0)
 	s.trace = nil
 }
@@ -50,6 +53,9 @@ func (s *recStore) tick(what string) error {
 	}
 	if s.yield {
 		runtime.Gosched()
+	}
+	if s.crashAt >= 0 && n == s.crashAt && s.onCrash != nil {
+		s.onCrash()
 	}
 	if s.exitAt >= 0 && n == s.exitAt {
 		os.Exit(137)
@@ -224,6 +230,7 @@ func (env *Env) open() error {
 		return err
 	}
 	env.st = newRecStore(inner)
+	env.closed = false
 	db, err := cloverOpen(env.st)
 	env.db = db
 	return err
